@@ -433,7 +433,11 @@ func checkDecode(c Case) (o h.Outcome) {
 		if !o.Guarded("BodyDecoder", func() { got, derr = dec(bytes.NewReader(body), hdr, mtv.Schema, encFn) }) {
 			return
 		}
-		if derr != nil {
+		if derr != nil && !ref.Valid && c.Mode != "json" {
+			// text that is no serialisation of the declared type (an integer beyond its format's range)
+			// may be refused by the decoder already; the verdict below has to be a rejection all the same
+			o.Class("refused-by-decoder:%s:%s", c.Mode, ref.FailKeyword)
+		} else if derr != nil {
 			o.Fail("decode-error:"+c.Mode, "the %s body of a value does not decode: %v\nschema=%s value=%s body=%q", c.Mode, derr, c.Schema, c.Value, body)
 			return
 		}
@@ -441,6 +445,9 @@ func checkDecode(c Case) (o h.Outcome) {
 		if c.Mode == "form" || c.Mode == "multipart" {
 			// members the schema does not declare are not part of the decoded object
 			want = declaredOnly(v, schema)
+		}
+		if derr != nil {
+			want, got = nil, nil // refused: nothing to compare
 		}
 		if os.Getenv("C06_STRIPNULL") != "" && c.Mode != "json" {
 			got = stripNull(got)
@@ -623,7 +630,9 @@ func enumerate(shard, nshards int, yield func(Case)) {
 
 func formSchema(t *rapid.T) (M, M) {
 	prim := func(l string) M {
-		switch rapid.IntRange(0, 3).Draw(t, l) {
+		switch rapid.IntRange(0, 4).Draw(t, l) {
+		case 4:
+			return M{"type": "integer", "format": "int32"}
 		case 0:
 			return M{"type": "integer", "maximum": 100.0}
 		case 1:
@@ -674,6 +683,10 @@ func formValue(t *rapid.T, s M) any {
 	prim := func(ps M, l string) any {
 		switch ps["type"] {
 		case "integer":
+			if ps["format"] == "int32" {
+				// the last three do not fit 32 bits: no int32, whatever is left of them after a conversion
+				return float64(rapid.SampledFrom([]int{0, 7, -2147483648, 2147483647, 2147483648, 4294967298, -2147483649}).Draw(t, l))
+			}
 			return float64(rapid.SampledFrom([]int{0, 1, -3, 100, 101}).Draw(t, l))
 		case "boolean":
 			return rapid.Bool().Draw(t, l)
